@@ -53,6 +53,10 @@ def capture_fit(sset, xs, ys, ws):
     return status, yfit, seen
 
 
+def same(a, b):
+    return a.dtype == b.dtype and a.shape == b.shape and bool(np.array_equal(a, b, equal_nan=True))
+
+
 def do_fit(c):
     k = int(c['nord'])
     dt = c.get('dtypes') or {}
@@ -66,12 +70,14 @@ def do_fit(c):
     except Exception as e:  # noqa: BLE001
         return err(e, 'init')
     out = {'bk': fl(sset.breakpoints), 'mask_before': [bool(v) for v in sset.mask]}
+    snap = (xs.copy(), ys.copy(), ws.copy())
     try:
         status, yfit, seen = capture_fit(sset, xs, ys, ws)
     except Exception as e:  # noqa: BLE001
         r = err(e, 'fit')
         r.update(out)
         return r
+    out['args_mutated'] = [nm for nm, a, b_ in (('xdata', xs, snap[0]), ('ydata', ys, snap[1]), ('invvar', ws, snap[2])) if not same(a, b_)]
     out['status'] = int(status)
     out['status_type'] = type(status).__name__
     out['yfit'] = fl(yfit)
@@ -128,21 +134,32 @@ def do_fit(c):
 def do_chol(c):
     ab = np.array([[num(v) for v in row] for row in c['ab']], dtype='d')
     b = np.array([num(v) for v in c['b']], dtype='d')
+    larg = ab.copy()
     try:
         with warnings.catch_warnings():
             warnings.simplefilter('ignore')
-            r0, L = B.cholesky_band(ab.copy(), mininf=float(c.get('mininf', 0.0)))
+            r0, L = B.cholesky_band(larg, mininf=float(c.get('mininf', 0.0)))
     except Exception as e:  # noqa: BLE001
         return err(e, 'cholesky_band')
+    mutated = [] if same(larg, ab) else ['cholesky_band.l']
     if isinstance(r0, (int, np.integer)) and int(r0) == -1:
         out = {'ret': -1, 'L': [fl(row) for row in L], 'L_shape': list(L.shape),
                'L_finite': bool(np.all(np.isfinite(L)))}
         try:
             with warnings.catch_warnings():
                 warnings.simplefilter('ignore')
-                x = B.cholesky_solve(L, b)
+                Lc, barg = L.copy(), b.copy()
+                x = B.cholesky_solve(L, barg)
+                if not same(L, Lc):
+                    mutated.append('cholesky_solve.a')
+                if not same(barg, b):
+                    mutated.append('cholesky_solve.bb')
+                x2 = B.cholesky_solve(L, barg)          # the same right-hand side object again
             out['x'] = fl(x)
             out['x_finite'] = bool(np.all(np.isfinite(x)))
+            out['second_solve_same'] = bool(np.array_equal(x, x2, equal_nan=True))
+            out['result_aliases_arg'] = bool(np.shares_memory(x, barg) or np.shares_memory(L, larg))
+            out['args_mutated'] = mutated
         except Exception as e:  # noqa: BLE001
             out['solve'] = err(e, 'cholesky_solve')
         return out
